@@ -1409,6 +1409,18 @@ class Run:
     def op_expunge(self, a1, a2):
         if self.session.dirty or self.session.new or self.session.deleted:
             return "skip"
+        if self.cfg.get("expunge_midtxn") and self.txn_flushed and a2 % 2:
+            # an object without relationships is expunged in the middle of a transaction that has flushed changes of it (the object is
+            # then let go of by the application); the session must not keep or re-acquire it, whatever the transaction does next
+            e = self.pick(a1, lambda e: e["cls"] == "K" and OS.state_of(e["obj"]) == "persistent" and self.in_session(e["obj"])
+                          and e["obj"] not in self.session.deleted and self.k_referrers_ok(e["obj"], False))
+            if e is None:
+                return "skip"
+            self.session.expunge(e["obj"])
+            e["expunged"] = True
+            e["retired"] = True
+            self.bump("probe:expunged_inside_transaction")
+            return "%d midtxn" % e["label"]
         e = self.pick(a1, lambda e: OS.state_of(e["obj"]) in ("pending", "persistent") and self.in_session(e["obj"]) and
                       e["obj"] not in self.session.deleted)
         if e is None:
@@ -3061,6 +3073,9 @@ class Run:
             self.V("*", "identity_map_holds_keyless_state", "the identity map lists an object whose state has no identity key (after %s)" % kind, op=i)
             items = []
         for key, o in items:
+            if self.m["inspect"](o).session is not self.session:
+                self.V("C34", "identity_map_holds_detached_object", "the identity map lists, under %s, an object that does not belong to the "
+                       "session (after %s)" % (key[1:2], kind), op=i)
             if self.m["inspect"](o).key != key:
                 self.V("C34", "identity_map_entry_under_foreign_key", "the identity map lists an object under %s whose own identity is %s "
                        "(after %s)" % (key[1:2], (self.m["inspect"](o).key or (None, None))[1:2], kind), op=i)
